@@ -165,6 +165,7 @@ type sTransport struct {
 	pause    atomic.Bool
 	drained  chan struct{}
 	doCalls  atomic.Int32
+	doDone   atomic.Bool  // Do has returned: from here on net/http's HTTP/2 transport does not watch the context while it waits on the request body
 	reqEnd   atomic.Value // string: how the request body ended, as the transport saw it
 }
 
@@ -180,10 +181,13 @@ func (t *sTransport) Do(req *http.Request) (*http.Response, error) {
 			for t.pause.Load() {
 				select {
 				case <-ctx.Done():
-					// a RoundTripper closes the request body when it gives up
-					_ = req.Body.Close()
-					t.reqEnd.Store("closed by the transport on cancellation")
-					return
+					if !t.doDone.Load() {
+						// RoundTrip itself watches the context and closes the request body when it gives up
+						_ = req.Body.Close()
+						t.reqEnd.Store("closed by the transport on cancellation")
+						return
+					}
+					time.Sleep(200 * time.Microsecond)
 				case <-time.After(200 * time.Microsecond):
 				}
 			}
@@ -198,6 +202,7 @@ func (t *sTransport) Do(req *http.Request) (*http.Response, error) {
 			}
 		}
 	}()
+	defer t.doDone.Store(true)
 	fail := func(err error) (*http.Response, error) {
 		return nil, &url.Error{Op: "Post", URL: req.URL.String(), Err: err}
 	}
@@ -329,7 +334,8 @@ type dxCall struct {
 	tr     *sTransport
 	body   *sBody
 	yc     *yieldCtl
-	st     *connect.BidiStreamForClient[h.Raw, h.Raw]
+	st     connect.StreamingClientConn // the (error-translating) conn under the typed stream, captured by an interceptor
+	stype  string                      // "bidi" | "client": the stream type of the call
 	hold   chan struct{} // do.exit waits here
 	opsCoq []string
 	obs    []string
@@ -353,7 +359,11 @@ type dxCall struct {
 const dxWatchdog = 3 * time.Second
 
 func newDxCall(r *h.Run, mode, fam string, cfg envCfg, status int, protoMajor int) *dxCall {
-	c := &dxCall{r: r, mode: mode, fam: fam, cfg: cfg, ctx: newCtlCtx(), yc: newYieldCtl(), hold: make(chan struct{}), doExitArrived: make(chan struct{}, 4)}
+	return newDxCallKind(r, mode, fam, "bidi", cfg, status, protoMajor)
+}
+
+func newDxCallKind(r *h.Run, mode, fam, kind string, cfg envCfg, status int, protoMajor int) *dxCall {
+	c := &dxCall{r: r, mode: mode, fam: fam, stype: kind, cfg: cfg, ctx: newCtlCtx(), yc: newYieldCtl(), hold: make(chan struct{}), doExitArrived: make(chan struct{}, 4)}
 	c.body = newSBody(c.ctx)
 	hdr := http.Header{}
 	hdr.Set("Content-Type", cfg.contentType(false))
@@ -368,8 +378,13 @@ func newDxCall(r *h.Run, mode, fam string, cfg envCfg, status int, protoMajor in
 	c.yc.hold["do.exit"] = c.hold
 	c.yc.arrived["do.exit"] = c.doExitArrived
 	connect.VerifSetYield(c.yc.hook)
-	client := connect.NewClient[h.Raw, h.Raw](c.tr, "http://scripted.invalid/verif.Svc/Bidi", clientOpts(cfg, "")...)
-	c.st = client.CallBidiStream(c.ctx)
+	opts := append(clientOpts(cfg, ""), connect.WithInterceptors(connCapture{&c.st}))
+	client := connect.NewClient[h.Raw, h.Raw](c.tr, "http://scripted.invalid/verif.Svc/Stream", opts...)
+	if kind == "client" {
+		_ = client.CallClientStream(c.ctx)
+	} else {
+		_ = client.CallBidiStream(c.ctx)
+	}
 	return c
 }
 
@@ -392,7 +407,7 @@ func (c *dxCall) guarded(what string, f func() error) (error, bool) {
 	case <-time.After(dxWatchdog):
 		c.timedOut = true
 		c.r.Fail(h.Failure{Key: "hang/" + strings.Fields(what)[0], Family: c.fam, What: what + " did not return within " + dxWatchdog.String(),
-			Input: map[string]any{"protocol": c.cfg.Proto, "operations": c.desc}})
+			Input: map[string]any{"protocol": c.cfg.Proto, "stream_type": c.stype, "operations": c.desc}})
 		return nil, false
 	}
 }
@@ -417,7 +432,7 @@ func (c *dxCall) waitDoExit() bool {
 	case <-time.After(dxWatchdog):
 		c.timedOut = true
 		c.r.Fail(h.Failure{Key: "hang/request-goroutine", Family: c.fam, What: "the request goroutine did not reach its end after Do returned",
-			Input: map[string]any{"protocol": c.cfg.Proto, "operations": c.desc}})
+			Input: map[string]any{"protocol": c.cfg.Proto, "stream_type": c.stype, "operations": c.desc}})
 		return false
 	}
 }
@@ -487,7 +502,7 @@ func (c *dxCall) sendBlocked(k ctxKind) {
 	case <-time.After(dxWatchdog):
 		c.timedOut = true
 		c.r.Fail(h.Failure{Key: "hang/Send", Family: c.fam, What: "a Send blocked on the request pipe did not return after the context ended",
-			Input: map[string]any{"protocol": c.cfg.Proto, "operations": c.desc}})
+			Input: map[string]any{"protocol": c.cfg.Proto, "stream_type": c.stype, "operations": c.desc}})
 		return
 	}
 	c.recordF(fmt.Sprintf("ASendBlocked %s", k.coq()), clsOf(err), "Send (blocked on the pipe when the context ends)", blocked)
@@ -610,12 +625,12 @@ func (c *dxCall) recvOpt(it dxItem, cancelWhileWaiting *ctxKind) {
 	if !c.started {
 		return
 	}
-	receive := func() error { _, err := c.st.Receive(); return err }
+	receive := func() error { var m h.Raw; return c.st.Receive(&m) }
 	if !c.ready {
 		blocked, ch := blockedFor(15*time.Millisecond, receive)
 		if !blocked {
 			c.r.Fail(h.Failure{Key: "ready/receive-before-response", Family: c.fam, What: "Receive returned before the request goroutine had published the response",
-				Input: map[string]any{"protocol": c.cfg.Proto, "operations": c.desc}})
+				Input: map[string]any{"protocol": c.cfg.Proto, "stream_type": c.stype, "operations": c.desc}})
 			<-ch
 			return
 		}
@@ -632,7 +647,7 @@ func (c *dxCall) recvOpt(it dxItem, cancelWhileWaiting *ctxKind) {
 		case <-time.After(dxWatchdog):
 			c.timedOut = true
 			c.r.Fail(h.Failure{Key: "hang/Receive", Family: c.fam, What: "Receive did not return after the response became ready",
-				Input: map[string]any{"protocol": c.cfg.Proto, "operations": c.desc}})
+				Input: map[string]any{"protocol": c.cfg.Proto, "stream_type": c.stype, "operations": c.desc}})
 		}
 		return
 	}
@@ -661,7 +676,7 @@ func (c *dxCall) recvCancel(k ctxKind) {
 	if !c.ready {
 		return
 	}
-	receive := func() error { _, err := c.st.Receive(); return err }
+	receive := func() error { var m h.Raw; return c.st.Receive(&m) }
 	blocked, ch := blockedFor(15*time.Millisecond, receive)
 	if blocked {
 		c.endCtx(k)
@@ -673,7 +688,7 @@ func (c *dxCall) recvCancel(k ctxKind) {
 	case <-time.After(dxWatchdog):
 		c.timedOut = true
 		c.r.Fail(h.Failure{Key: "hang/Receive", Family: c.fam, What: "a Receive blocked in the body read did not return after the context ended",
-			Input: map[string]any{"protocol": c.cfg.Proto, "operations": c.desc}})
+			Input: map[string]any{"protocol": c.cfg.Proto, "stream_type": c.stype, "operations": c.desc}})
 	}
 }
 
@@ -691,7 +706,7 @@ func (c *dxCall) closeResp(failDiscard bool) {
 		blocked, ch := blockedFor(15*time.Millisecond, func() error { return c.st.CloseResponse() })
 		if !blocked {
 			c.r.Fail(h.Failure{Key: "ready/close-before-response", Family: c.fam, What: "CloseResponse returned before the request goroutine had published the response",
-				Input: map[string]any{"protocol": c.cfg.Proto, "operations": c.desc}})
+				Input: map[string]any{"protocol": c.cfg.Proto, "stream_type": c.stype, "operations": c.desc}})
 			<-ch
 			return
 		}
@@ -705,7 +720,7 @@ func (c *dxCall) closeResp(failDiscard bool) {
 		case <-time.After(dxWatchdog):
 			c.timedOut = true
 			c.r.Fail(h.Failure{Key: "hang/CloseResponse", Family: c.fam, What: "CloseResponse did not return after the response became ready",
-				Input: map[string]any{"protocol": c.cfg.Proto, "operations": c.desc}})
+				Input: map[string]any{"protocol": c.cfg.Proto, "stream_type": c.stype, "operations": c.desc}})
 		}
 		return
 	}
@@ -765,7 +780,7 @@ func (c *dxCall) finish(label string) {
 		c.ctx.end(context.Canceled)
 		return
 	}
-	input := map[string]any{"protocol": c.cfg.Proto, "operations": c.desc}
+	input := map[string]any{"protocol": c.cfg.Proto, "stream_type": c.stype, "operations": c.desc}
 	closes := int(c.body.closes.Load())
 	if c.mode == "C14" {
 		if byCancel {
@@ -792,9 +807,9 @@ func (c *dxCall) finish(label string) {
 	}
 	c.oracles(input)
 	c.r.Eval(c.fam, label+strings.Join(c.opsCoq, ";"))
-	c.r.Sample(c.fam, map[string]any{"protocol": c.cfg.Proto, "operations": c.desc})
+	c.r.Sample(c.fam, map[string]any{"protocol": c.cfg.Proto, "stream_type": c.stype, "operations": c.desc})
 	c.r.Case(c.fam, fmt.Sprintf("CallTrace %s %s %s %d", c.cfg.coqProto(), h.CoqList(c.opsCoq), h.CoqList(c.obs), closes),
-		map[string]any{"protocol": c.cfg.Proto, "operations": c.desc, "body_closes": closes})
+		map[string]any{"protocol": c.cfg.Proto, "stream_type": c.stype, "operations": c.desc, "body_closes": closes})
 }
 
 // oracles checks the statements of C14 / C15 directly on the observed classes.
@@ -868,7 +883,11 @@ func (c *dxCall) oracles(input map[string]any) {
 
 // dxRandom performs one random scripted call.
 func dxRandom(r *h.Run, rng *h.Rng, mode, fam string, cfg envCfg, delays []string) {
-	c := newDxCall(r, mode, fam, cfg, 200, 2)
+	kind := "bidi"
+	if rng.Chance(35) {
+		kind = "client"
+	}
+	c := newDxCallKind(r, mode, fam, kind, cfg, 200, 2)
 	for _, p := range delays {
 		c.yc.delay[p] = time.Duration(300+rng.Intn(1200)) * time.Microsecond
 	}
@@ -1020,6 +1039,31 @@ func dxFamily(r *h.Run, rng *h.Rng, mode, fam string) {
 			}
 		}
 	}
+	if mode == "C15" {
+		// fixed scenarios: the response headers have arrived (net/http's HTTP/2 transport
+		// no longer watches the context on the request side), then the context ends
+		// during a Send blocked on the pipe; both stream types that keep the request open
+		for _, stype := range []string{"bidi", "client"} {
+			for _, proto := range protos {
+				for _, k := range []ctxKind{kCanceled, kDeadline} {
+					for _, ready := range []bool{true, false} {
+						c := newDxCallKind(r, mode, fam, stype, envCfg{Proto: proto}, 200, 2)
+						c.send(nil)
+						c.gateDo("ok")
+						if ready {
+							c.gateReady()
+						}
+						c.sendBlocked(k)
+						if !c.timedOut {
+							c.send(nil)
+							c.recv(dxItem{kind: "msg"})
+						}
+						c.finish("blocked-send-after-headers|")
+					}
+				}
+			}
+		}
+	}
 	r.Sum.Exhaustive[fam+": a delay at every single yield point of the duplex call"] = true
 }
 
@@ -1039,4 +1083,19 @@ func C15(r *h.Run) {
 	rng := r.Rng.Fork("c15")
 	dxFamily(r, rng, "C15", "scripted_cancel")
 	liveFamily(r, rng.Fork("live"), "live_cancel", true)
+}
+
+// connCapture is an interceptor that records the StreamingClientConn of the call.
+type connCapture struct{ dst *connect.StreamingClientConn }
+
+func (connCapture) WrapUnary(next connect.UnaryFunc) connect.UnaryFunc { return next }
+func (c connCapture) WrapStreamingClient(next connect.StreamingClientFunc) connect.StreamingClientFunc {
+	return func(ctx context.Context, spec connect.Spec) connect.StreamingClientConn {
+		conn := next(ctx, spec)
+		*c.dst = conn
+		return conn
+	}
+}
+func (connCapture) WrapStreamingHandler(next connect.StreamingHandlerFunc) connect.StreamingHandlerFunc {
+	return next
 }
